@@ -49,3 +49,8 @@ def first_token(text):
 def matches(c, event, sender):
     """record (event, sender_filter, func, kwargs) is called for an emit of `event` by `sender`"""
     return c[0] == event and (c[1] is None or c[1] == sender)
+
+
+def smul(q, s):
+    """q * s (kept linear on the symbolic side: uninterpreted + the defining recurrence)."""
+    return q * s
